@@ -15,7 +15,7 @@ PID = 'C02'
 
 META = {
     'technique': 'dominance / must-pass-through on the event-CFG of the packetization thread (temporal delimiter before every post), typestate of the OBU writers (header -> memmove -> size with agreeing argument expressions, by dominance and post-dominance), who-may-use check of the sequence-header type constant',
-    'text': 'Decides the structural part of packet well-formedness on every path: no packet can be posted without a temporal delimiter having been written into that buffer, every OBU writer frames its payload consistently (size field announced, payload shifted by the same amounts the size is written with), and the sequence header has one writer used by both the API and the key-frame path. The contents of the OBUs, exactly-one-shown-frame and EOS placement depend on queue contents at run time and are not decided. The framing clause follows helper functions: the gap opened for the size field (uleb length of X) and the value written into it must be the same X after inlining locals and substituting helper parameters.',
+    'text': 'Decides the structural part of packet well-formedness on every path: no packet can be posted without a temporal delimiter having been written into that buffer, every OBU writer frames its payload consistently (size field announced, payload shifted by the same amounts the size is written with), and the sequence header has one writer used by both the API and the key-frame path. The contents of the OBUs, exactly-one-shown-frame and EOS placement depend on queue contents at run time and are not decided. The framing clause follows helper functions: the gap opened for the size field (uleb length of X) and the value written into it must be the same X after inlining locals and substituting helper parameters. Also decided: every member the sequence-header writer reads is final before the pipeline starts (no run-time store of a non-zero value) - the condition under which the header is byte-identical each time and to svt_av1_enc_stream_header (4 recorded findings, replayed); and EB_AV1_KEY_PICTURE is reported only under the key-frame predicate.',
     'note': 'error packets posted by lib_svt_encoder_send_error_exit (p_buffer NULL, size 0) are not stream packets; allocation-failure returns are error exits',
     'ref': 'DESIGN.md section 5 C02',
 }
@@ -248,3 +248,89 @@ def run(P, rep, tier):
             a = strip(ev['e'][2][1])
             rep.ob('C02.SPS', '%s-passes-scs' % label, a is not None and a[0] == 'v', f.loc(ev), 'sequence control set argument: %s' % pstr(a))
     rep.floor('C02.SPS', 5)
+
+    # ---------------- SPSSTATE: the sequence header is byte-identical each time it is written and equal to what
+    # svt_av1_enc_stream_header returns - whenever the application calls it.  The header is one function over the SeqHeader of
+    # the sequence control set, so that holds iff every member the writer reads is final when svt_av1_enc_init returns:
+    # no pipeline (run-time) code may store to such a member.  Exempt: stores made by the writer chain itself (re-derived at
+    # every write, same value each time) and member-to-same-member copies between sequence control sets.
+    from engine.classes import Classes
+    C = Classes(P)
+    sps = P.fn('encode_sps_av1')
+    chain = [g for g in P.reachable_from([sps]) if g.lib == 'Encoder' and not g.nocfg]
+    HDR_RECS = ('SeqHeader', 'OrderHintInfo', 'EbColorConfig', 'EbTimingInfo', 'DecoderModelInfo', 'EbAv1OperatingPoint')
+    read = set()
+    for g in chain:
+        for ev in g.events():
+            e = ev.get('e')
+            if e is not None:
+                read |= {x[1] for x in subexprs(e) if x[0] == 'm' and x[1].split('.')[0] in HDR_RECS}
+        for b in g.blocks.values():
+            c = b.get('fullcond')
+            if c is not None:
+                read |= {x[1] for x in subexprs(c) if x[0] == 'm' and x[1].split('.')[0] in HDR_RECS}
+    if len(read) < 15:
+        raise AnalysisBroken('only %d sequence-header members read by the writer chain' % len(read))
+    late = {}
+    for f in P.fns:
+        if f.lib != 'Encoder' or f.nocfg or f not in C.runtime or f in chain:
+            continue
+        for ev in f.events(('st',)):
+            e = ev['e']
+            if e[0] not in ('a', 'u'):
+                continue
+            t = strip(e[2])
+            if t[0] != 'm' or t[1] not in read:
+                continue
+            r = root_of(t)
+            if r is not None and r[2] == 'l' and not ev.get('pt') and not any(x[0] == 'm' and x[2] for x in subexprs(t)):
+                continue                                 # a local struct variable (scratch copy), not the sequence control set
+            if e[0] == 'a' and e[1] == '=' and strip(e[3])[0] == 'm' and strip(e[3])[1] == t[1]:
+                continue                                 # same-member copy between sequence control sets
+            if e[0] == 'a' and e[1] == '=' and strip(e[3])[0] == 'l' and strip(e[3])[1] == 0:
+                continue                                 # the zero-filled start value again: cannot change a header
+            late.setdefault((f.name, t[1]), []).append((f, ev))
+    byfn = {}
+    for (fn, fld), lst in late.items():
+        byfn.setdefault(fn, []).append((fld, lst[0]))
+    for fld in sorted(read):
+        if not any(fl == fld for (fn, fl) in late):
+            rep.ob('C02.SPSSTATE', 'member:%s' % fld, True, sps.loc(), 'read by the sequence-header writer; never given a non-zero value by pipeline code')
+    for fn, lst in sorted(byfn.items()):
+        f, ev = lst[0][1]
+        rep.ob('C02.SPSSTATE', 'late-stores@%s' % fn, False, f.loc(ev),
+               '%s stores %s after the pipeline has started; the sequence-header writer reads them, so a header written before that point '
+               '(svt_av1_enc_stream_header before the first picture, an earlier key frame) differs from one written after it'
+               % (fn, ', '.join(sorted(fl.split('.', 1)[1] for fl, _ in lst))))
+    rep.floor('C02.SPSSTATE', 15)
+
+    # ---------------- PICTYPE: the packet reports EB_AV1_KEY_PICTURE exactly for key frames.  Whatever selects the key-picture
+    # value must be the predicate that makes the frame a key frame (idr_flag / frame_type), not a weaker one (slice type).
+    KEY = 3
+    npt = 0
+    HDR = 'EbBufferHeaderType.'
+    scope = [g for g in P.reachable_from([pk]) if g.file == pk.file and not g.nocfg]
+    for g in scope:
+        for ev in g.events(('st',)):
+            e = ev['e']
+            if e[0] != 'a' or last_field(strip(e[2])) != HDR + 'pic_type':
+                continue
+            def key_guards(x, guards):
+                x = strip(x)
+                if x is None:
+                    return []
+                if x[0] == 'q':
+                    return key_guards(x[2], guards + [x[1]]) + key_guards(x[3], guards + [x[1]])
+                if x[0] == 'l' and x[1] == KEY:
+                    return [guards]
+                return []
+            for guards in key_guards(e[3], []):
+                npt += 1
+                flds = set()
+                for c in guards:
+                    flds |= {y[1] for y in subexprs(c) if y[0] == 'm'}
+                ok = any(fl.endswith('.idr_flag') or fl.endswith('.frame_type') for fl in flds)
+                rep.ob('C02.PICTYPE', '%s/key-picture#%d' % (g.name, npt), ok, g.loc(ev),
+                       'EB_AV1_KEY_PICTURE is reported under %s' % ([pstr(c)[:50] for c in guards]) +
+                       ('' if ok else ': none of these conditions is the key-frame predicate (idr_flag / frame_type), so intra-only frames are reported as key pictures'))
+    rep.floor('C02.PICTYPE', 1)
